@@ -32,10 +32,11 @@ def build(ctx, family, only_step=None):
         jobs.append((pre + '_native', [MAIN, o[pre + '_nat.o']], base + ['-DHAVE_NAT'], []))
     if t:
         for w in widths:
-            jobs.append((pre + '_w%d' % w, [MAIN, o[pre + '_w%d.o' % w]], base + ['-DHAVE_MDL'], []))
-        if native_ok:
+            if pre + '_w%d.o' % w in o:
+                jobs.append((pre + '_w%d' % w, [MAIN, o[pre + '_w%d.o' % w]], base + ['-DHAVE_MDL'], []))
+        if native_ok and pre + '_w32.o' in o:
             jobs.append((pre + '_conf', [MAIN, o[pre + '_w32.o'], o[pre + '_nat.o']], base + ['-DHAVE_MDL', '-DHAVE_NAT'], []))
-        else:
+        elif pre + '_w32.o' in o:
             jobs.append((pre + '_model32', [MAIN, o[pre + '_w32.o']], base + ['-DHAVE_MDL'], []))
     ctx.bins = ctx.compile_many(jobs)
     ctx.widths = widths
